@@ -37,7 +37,7 @@ Fixpoint run_ops (fuel : nat) (gr : gap_rule) (c : cfg) (ps : pystate) (ops : li
   | O => [-98]
   | S fuel' =>
     match ops with
-    | [] => [-7; Z.of_nat (length (w_files (p_w ps)))] ++ flat_map dump_file (w_files (p_w ps))
+    | [] => [-7; Z.of_nat (length (all_files (p_w ps)))] ++ flat_map dump_file (all_files (p_w ps))
     | 1 :: has_ns :: ns :: len :: tag0 :: rest =>
       let '((cls, ret), ps') := py_rf_write gr c ps (if zb has_ns then Some ns else None) (seqZ tag0 (Z.to_nat len)) in
       report cls ret ps' ++ run_ops fuel' gr c ps' rest
@@ -58,7 +58,7 @@ Fixpoint run_ops (fuel : nat) (gr : gap_rule) (c : cfg) (ps : pystate) (ops : li
       report rc 0 ps' ++ run_ops fuel' gr c ps' rest1
     | 5 :: newstart :: rest =>
       let w := p_w (py_close ps) in
-      let ps' := mkPy 0 0 0 false (mkW 0 None false 0 0 (-1) false (w_files w)) in
+      let ps' := mkPy 0 0 0 false (mkW 0 None None 0 0 (-1) false (w_files w)) in
       let c' := mkCfg newstart (c_n c) (c_d c) (c_sc c) (c_fc c) (c_cont c) (c_chunk c) in
       report 0 0 ps' ++ run_ops fuel' gr c' ps' rest
     | _ => [-96]
